@@ -97,10 +97,10 @@ RetChecks(r) ==
     [] r.op = "mount" ->
          {<<"MountFaithful", r.res = "ok" /\ HasBlob(st, k)>>,
           <<"MountAvoidsTransfer", (u.profile.mount /\ <<u.lib, u.dg[k]>> \in pre.blobs) => ~r.fetched>>}
-    [] r.op = "pred" -> {<<"PredecessorsFaithful", r.res = "ok" /\ Rng(r.list) = Referrers(pre, k) /\ Len(r.list) = Cardinality(Rng(r.list))>>}
+    [] r.op = "pred" -> {<<"PredecessorsFaithful", corrupted \/ (r.res = "ok" /\ Rng(r.list) = Referrers(pre, k) /\ Len(r.list) = Cardinality(Rng(r.list)))>>}
     [] r.op = "referrers" ->       \* r.ref is the artifact type asked for ("" = all); filtered by the server or by the client
-         {<<"ReferrersFaithful", r.res = "ok" /\ Rng(r.list) = {m \in Referrers(pre, k) : r.ref = "" \/ u.art[m] = r.ref}
-                                 /\ Len(r.list) = Cardinality(Rng(r.list))>>}
+         {<<"ReferrersFaithful", corrupted \/ (r.res = "ok" /\ Rng(r.list) = {m \in Referrers(pre, k) : r.ref = "" \/ u.art[m] = r.ref}
+                                 /\ Len(r.list) = Cardinality(Rng(r.list)))>>}
     [] r.op = "tags" -> {<<"TagsFaithful", r.res = "ok" /\ Rng(r.list) = {x[2] : x \in {y \in pre.tags : y[1] = App}}    \* including the referrers tags the client itself maintains
                                            /\ Len(r.list) = Cardinality(Rng(r.list))>>}
     [] r.op \in {"seek", "seekref"} ->       \* through Fetch(descriptor) or Blobs().FetchReference(digest)
